@@ -229,6 +229,11 @@ type crashCtx struct {
 }
 
 func (c *crashCtx) add(p, what, detail string, replay []string) {
+	if p == "C03" && (strings.Contains(detail, "file exists") || strings.Contains(detail, "already exists")) {
+		// an Open (or a call of the recovered WAL) that stumbles over a file it did not expect: creating a segment collided
+		// with an existing file — the identity clause of C13
+		c.add("C13", "creating a segment collides with a file a crash left behind: "+what, detail, replay)
+	}
 	// capped per property: a flood of reports under one property must not hide another property's
 	n := 0
 	for _, v := range c.viols {
@@ -345,6 +350,39 @@ func (c *crashCtx) usabilityProbe(w *wal.WAL, d *simfs.Disk, replay []string) {
 	if err != nil {
 		c.add("C03", "the directory recovery left behind does not open again", err.Error(), append(replay, "then: store at LastIndex+1, Close, Open"))
 		return
+	}
+	// "further reopen cycles, whose effects are again durable": the single batch written between the two restarts is
+	// still there, and so is what preceded it; once more with another single batch
+	for round := 0; round < 2; round++ {
+		la, _ := w2.LastIndex()
+		var b2 raft.Log
+		if err := w2.GetLog(next, &b2); la != next || err != nil || string(b2.Data) != "probe" {
+			c.add("C03", "an append acknowledged by the recovered WAL is gone after the next clean restart",
+				fmt.Sprintf("LastIndex=%d want %d, GetLog: %v", la, next, err), append(replay, "then: store at LastIndex+1, Close, Open (twice)"))
+			break
+		}
+		if last >= first && last > 0 {
+			if err := w2.GetLog(last, &b2); err != nil {
+				c.add("C03", "what the recovery came back with is unreadable after further use and a clean restart", err.Error(), append(replay, "then: store at LastIndex+1, Close, Open"))
+				break
+			}
+		}
+		if round == 1 {
+			break
+		}
+		next++
+		if err := w2.StoreLogs([]*raft.Log{{Index: next, Term: 9, Type: raft.LogCommand, Data: []byte("probe")}}); err != nil {
+			c.add("C03", "the reopened WAL refuses an append at LastIndex+1", err.Error(), append(replay, "then: store, Close, Open, store"))
+			break
+		}
+		w2.DeleteRange(math.MaxUint64, math.MaxUint64)
+		w2.Close()
+		w2, err = openWalOn(d, c.segSize, nil)
+		c.opens++
+		if err != nil {
+			c.add("C03", "the directory does not open after a further append and clean restart", err.Error(), append(replay, "then: store, Close, Open, store, Close, Open"))
+			return
+		}
 	}
 	w2.Close()
 }
